@@ -49,8 +49,11 @@ class UpdateMetaProved(Contract):
                 if dk not in d:
                     continue
                 me.attrs[k] = d[dk].attrs['_len']
-            else:
+            elif k == 'VAR-LIST':
                 me.attrs[k] = Opaque('%s as left by updatemeta' % k)
+            else:
+                # an arbitrary integer (the date / time / count attributes are integers): code that goes on computing with it stays symbolic
+                me.attrs[k] = I.ctx.fresh('%s_after_updatemeta' % k.replace('-', '_'))
             if k not in listed:
                 listed += (k,)
         me.attrs['_ncattrs'] = listed
